@@ -255,6 +255,48 @@ func schedStressMain(args []string) {
 						}
 					}
 				}
+				// after exhaustion: half of the goroutines keep polling Next() (as waiting instances do), the others
+				// keep reading Left().  Consecutive identical observations are recorded once (first of a run of equal
+				// results); every observation that differs from the previous one is recorded with its true call/return
+				// positions (the sequence number of the call is reserved before the call is made).
+				if ends < 3 {
+					return
+				}
+				reserve := func() int64 { return atomic.AddInt64(&seq, 1) }
+				put := func(sq int64, e ssEv) {
+					e.seq, e.Run = sq, run
+					evmu.Lock()
+					evs = append(evs, e)
+					evmu.Unlock()
+				}
+				if g%2 == 0 {
+					var lastT time.Time
+					for i := 0; i < 6000; i++ {
+						sq := reserve()
+						t, ok := wrapped.Next()
+						if i == 0 || ok || !t.Equal(lastT) {
+							tl, neg := rel(t)
+							put(sq, ssEv{Ev: "call", G: g, Op: "N", Wall: []int{}, T: []int{}})
+							put(reserve(), ssEv{Ev: "ret", G: g, Op: "N", T: tl, Ok: ok, Neg: neg, Wall: []int{}})
+						}
+						lastT = t
+					}
+				} else {
+					lastL := 0
+					for i := 0; i < 6000; i++ {
+						wl, wneg := rel(time.Now())
+						if wneg {
+							wl = []int{}
+						}
+						sq := reserve()
+						l := wrapped.Left()
+						if i == 0 || l != lastL {
+							put(sq, ssEv{Ev: "call", G: g, Op: "L", Wall: wl, T: []int{}})
+							put(reserve(), ssEv{Ev: "ret", G: g, Op: "L", Left: vt.Small(int64(l)), Wall: []int{}, T: []int{}})
+						}
+						lastL = l
+					}
+				}
 			}()
 		}
 		wg.Wait()
